@@ -106,7 +106,11 @@ func runC02() {
 			}
 		}
 		// transactions with a pre-history (failed statements, lost rollbacks, a resolver that met them before): c02hist.go
-		for i := 0; i < 3; i++ {
+		nHist := 3
+		if run.Thorough() {
+			nHist = 1
+		}
+		for i := 0; i < nHist; i++ {
 			historyScenario(r.Fork())
 			rec.Count("c02:family:history")
 		}
